@@ -3,7 +3,9 @@
 check(s) that are recorded to catch it (seeded/<name>/meta.json) and report which are still caught.
 Each seed gets its own scratch worktree of /repo main under /tmp (never /repo itself); the check runs with VERIF_REPO.
 Exit 1 when a seed that was caught is no longer caught."""
-import json, os, re, subprocess, sys, glob, concurrent.futures as cf
+import json, os, re, subprocess, sys, glob, threading, concurrent.futures as cf
+
+GITLOCK = threading.Lock()     # git worktree add / remove / prune must not run concurrently
 
 ROOT = os.path.dirname(os.path.dirname(os.path.abspath(__file__)))
 
@@ -23,9 +25,10 @@ def run(name):
     d = os.path.join(ROOT, "seeded", name)
     meta = json.load(open(os.path.join(d, "meta.json")))
     wt = f"/tmp/seedreg.{name}"
-    subprocess.run(["git", "-C", "/repo", "worktree", "remove", "--force", wt], capture_output=True)
-    subprocess.run(["git", "-C", "/repo", "worktree", "prune"], capture_output=True)
-    subprocess.run(["git", "-C", "/repo", "worktree", "add", "-q", "--detach", wt, "main"], check=True, capture_output=True)
+    with GITLOCK:
+        subprocess.run(["git", "-C", "/repo", "worktree", "remove", "--force", wt], capture_output=True)
+        subprocess.run(["git", "-C", "/repo", "worktree", "prune"], capture_output=True)
+        subprocess.run(["git", "-C", "/repo", "worktree", "add", "-q", "--detach", wt, "main"], check=True, capture_output=True)
     out = []
     try:
         p = subprocess.run(["git", "-C", wt, "apply", os.path.join(d, "patch.diff")], capture_output=True, text=True)
@@ -37,7 +40,8 @@ def run(name):
             v = [l for l in r.stdout.splitlines() if l.startswith("VIOLATION")]
             out.append((pid, "caught" if (r.returncode == 1 and v) else f"MISSED (exit {r.returncode})"))
     finally:
-        subprocess.run(["git", "-C", "/repo", "worktree", "remove", "--force", wt], capture_output=True)
+        with GITLOCK:
+            subprocess.run(["git", "-C", "/repo", "worktree", "remove", "--force", wt], capture_output=True)
     return name, out
 
 
